@@ -54,6 +54,13 @@ def s_eq(a, b):
     return And(*[sym.ceq(x.c, y.c) if not isinstance(y.c, int) else sym.ceq(x.c, y.c) for x, y in zip(a, b)])
 
 
+def spec_value(I2, ty, dv):
+    e = SStr()
+    for ch in dv:
+        e.append(Ch(0x20) if I2.truth(c11.is_ws(ch.c)) else ch)
+    return c11.spec_collapse(I2, e) if ty == "tokenized" else e
+
+
 def run_case(job):
     lists, written, timeout_s = job
     out = {"job": ("defaults", lists, written), "status": "holds", "paths": 0, "queries": 0, "error": None, "fns": {}}
@@ -133,7 +140,9 @@ def run_case(job):
                 spec = I.try_repo_method(a, "specified", [])
                 val = I.try_repo_method(a, "normalized_value", [])
                 res.append((a, spec, val))
-            return res
+            # the specified value of every definition's default, computed in the same path exploration
+            specs = [spec_value(I, ty, dv) if kind in ("value", "fixed") else None for row in defs for (an, ty, kind, dv) in row]
+            return (res, specs)
 
         def ctx_node(I, ctx, id_):
             for key, it in holder["registry"]:
@@ -158,16 +167,10 @@ def run_case(job):
             earlier = Or(*[And(s_eq(ln2, en), s_eq(an2, an)) for (ln2, (an2, _, _, _)) in flat[:k]]) if k else False
             applicable.append((an, ty, kind, dv, And(s_eq(ln, en), Not(earlier))))
 
-        def spec_value(I2, ty, dv):
-            e = SStr()
-            for ch in dv:
-                e.append(Ch(0x20) if I2.truth(c11.is_ws(ch.c)) else ch)
-            return c11.spec_collapse(I2, e) if ty == "tokenized" else e
-
         def post(p):
             if p["kind"] == "panic":
                 return False
-            res = p["value"]
+            res, specs = p["value"]
             conds = []
             dtd_items = [(a, sp, v) for (a, sp, v) in res if a.fields["from_dtd"] is True]
             own_items = [(a, sp, v) for (a, sp, v) in res if a.fields["from_dtd"] is not True]
@@ -177,14 +180,14 @@ def run_case(job):
                 conds.append(And(s_eq(a.fields["local_name"], wn), sp is True))
             for (a, sp, v) in dtd_items:
                 conds.append(sp is False)
-            for (an, ty, kind, dv, binding) in applicable:
+            for k, (an, ty, kind, dv, binding) in enumerate(applicable):
                 is_written = Or(*[s_eq(wn, an) for (wn, _) in wnames]) if wnames else False
                 due = And(binding, Not(is_written)) if kind in ("value", "fixed") else False
                 hits = []
                 for (a, sp, v) in dtd_items:
                     same = s_eq(a.fields["local_name"], an)
                     if isinstance(v, Enum) and v.variant == "Ok":
-                        good = kstd.s_eq(I, v.fields[0], spec_value(I, ty, dv))
+                        good = kstd.s_eq(I, v.fields[0], specs[k]) if specs[k] is not None else False
                     else:
                         good = False
                     hits.append((same, good))
